@@ -298,7 +298,7 @@ def setItem [Zero α] [BEq α] (S : Sparse α) (key : Key) (rhs : Rhs α) : Exce
 
 /-- Value stored under a full subscript: `vals[loc]` where `tt_ismember_rows` finds it,
 zero otherwise. -/
-def lookup [Zero α] (S : Sparse α) (r : List Nat) : α :=
+def lookupIx [Zero α] (S : Sparse α) (r : List Nat) : α :=
   match lastIdxOfN S.subs r with
   | some k => S.vals.getD k 0
   | none => 0
@@ -306,7 +306,7 @@ def lookup [Zero α] (S : Sparse α) (r : List Nat) : α :=
 /-- `extract(searchsubs)`: values at full subscripts (zero when nothing is stored). -/
 def extract [Zero α] (S : Sparse α) (rows : List (List Nat)) : Except Reject (List α) :=
   if rows.any (fun r => !inBounds S.shape r) then .error .reject
-  else .ok (rows.map S.lookup)
+  else .ok (rows.map S.lookupIx)
 
 def subsubsref (vals : List α) : SpReadOut α :=
   match vals with
